@@ -378,7 +378,7 @@ def plan(tier, seed):
     else:
         nsh, budget = 64, 400
     shards = [{"kind": "catalog", "ids": ids[i::nsh], "budget_s": budget} for i in range(nsh)]
-    shards += [{"kind": "generated", "shard": i, "seed": seed, "examples": 8 if tier == "quick" else 60} for i in range(8 if tier == "quick" else 32)]
+    shards += [{"kind": "generated", "shard": i, "seed": seed, "examples": 8 if tier == "quick" else 120} for i in range(8 if tier == "quick" else 48)]
     shards += [{"kind": "large", "part": i, "parts": 6} for i in range(6)]
     return shards
 
